@@ -116,3 +116,14 @@ Theorem C16_range_invariant_excludes_foreign_classes : forall m,
   pm_rangeb m = true -> INT32_MIN <= pm_res m -> can_value m = false /\ can_unicode m = false.
 Proof. exact pm_rangeb_no_foreign_possible. Qed.
 Print Assumptions C16_range_invariant_excludes_foreign_classes.
+
+(** Constructor-valid objects ([pm_ctorb]: what pretty_midi's TimeSignature / KeySignature / Note
+    constructors enforce, hence all that byte strings parse to; the harness builds and judges constructed
+    objects only inside it — false alarm C16-h5): the post-constructor stage raises exactly for a
+    non-positive division or a denominator above INT32_MAX. *)
+Theorem C16_constructible_error_iff : forall m,
+  pm_ctorb m = true -> pm_invb m = true ->
+  (convert m = Err MIDIConversionError <->
+   pm_res m <= 0 \/ existsb (fun t => INT32_MAX <? pt_den t) (pm_tsigs m) = true).
+Proof. exact convert_error_iff_constructible. Qed.
+Print Assumptions C16_constructible_error_iff.
